@@ -99,6 +99,14 @@ TRUSTED["C20"] = [
     "floor division by a positive symbolic divisor as quotient/remainder with fresh variables",
 ]
 
+TRUSTED["C06"] = [
+    "A5.ix numpy.linalg.svd as an uninterpreted kernel of the per-line matrix: U unitary, sigma finite, non-negative, non-increasing "
+    "(instances), H = U diag(sigma) V^H; 'faithful decomposition' is exactly 'what is stored is conj(U^T) and sqrt(sigma) of that call'",
+    "np.searchsorted on an ascending array, np.argmin / np.argmax / np.max as first-extremum contracts, with hand-instantiated quantified facts "
+    "(ground terms: results, witnesses, skolems, and their shifts by symbolic slice offsets)",
+    "matrix terms as uninterpreted functions of the free constants of the generic cell (template abstraction) + extensionality lemma",
+]
+
 ASSUMPTIONS = {
     "C09": [
         "a mode-shape vector in a pole table is either entirely non-finite or entirely finite",
@@ -128,7 +136,13 @@ ASSUMPTIONS["C18"] = ["all statements are over the reals: an arccos argument or 
 ASSUMPTIONS["C20"] = ["scope of the order-value clause: step == 1 (the ordinate c*step equals the column index that modal-parameter extraction "
                       "accepts only then; the SSI pole computation does not support step > 1 at all)"]
 
+ASSUMPTIONS["C06"] = ["uniform ascending grid freq[n] = n*delta, delta > 0; sigma2 > 0 at every line; selected frequencies inside the grid; DF >= delta; "
+                      "ties of the ratio resolve to the lowest line"]
+
 NOT_DECIDED = {
+    "C06": ["MAC 1 with the dominant singular vector follows from 'Phi is a non-zero multiple of the stored vector' and C18's scale invariance; "
+            "unitarity of the vectors is numpy's (trusted)",
+            "the end-to-end clause through EFDD/FSDD's first stage is the same FDD_mpe call (data flow not re-proved for EFDD_mpe)"],
     "C20": ["what matplotlib draws for the recorded calls (A10)"],
     "C18": ["invariance of MPD under a complex factor (needs equivariance of the SVD's right singular vectors)",
             "floating-point rounding (e.g. MAC = 1.0000000000000002 on collinear shapes)"],
